@@ -3,9 +3,8 @@
 * `mix`: the score of a mixture trace is the categorical log-probability of the chosen component
   plus that component's score (float tolerance; `mix` hard-wires `genjax.categorical`);
 * out-of-range switch indices: the documentation promises clamping, consistently for score, return
-  value and choices.  The pinned implementation clamps the executed branch (`lax.switch`) but wraps
-  the selection of score / retval (`jnp.choose(mode="wrap")`) and masks choices by index equality:
-  a known finding, reproduced on every run.
+  value and choices (the pinned implementation clamped only the executed branch; repaired by a `fix:`
+  commit, and since then also part of the model, `C13_clamp`).  The probe stays as a direct test.
 """
 
 from __future__ import annotations
